@@ -439,19 +439,23 @@ def _run_U(case: Dict[str, Any], res: core.Res) -> None:
                 k = key
             _write(d, fname, _file_text(fmt, section, [('project-version', '9.9', 'basic' if fmt == 'toml' else 'raw')]))
             ref = _outcome([], d)
-            text = _file_text(fmt, section, [('project-version', '9.9', 'basic' if fmt == 'toml' else 'raw'), (k, 'zzz', 'basic' if fmt == 'toml' else 'raw')])
-            _write(d, fname, text)
-            got = _outcome([], d)
-            res.c('unknown_key_cases')
-            res.c('evaluations')
-            if got[0] != 'ok':
-                res.v('C20:unknown-key-aborts', f'{fname}: unknown key {key!r} gives {got[0]} {got[1]}', cfgkey=key, file=fname, file_text=text)
-                continue
-            why = _same(ref, got)
-            if why:
-                res.v('C20:unknown-key-applied', f'{fname}: unknown key {key!r} changed the configuration: {why}', cfgkey=key, file=fname, file_text=text)
-            if not any('No such config option' in w for w in got[2]):
-                res.v('C20:unknown-key-not-warned', f'{fname}: unknown key {key!r} produced no "No such config option" warning (warnings: {got[2]})', cfgkey=key, file=fname, file_text=text)
+            # the unknown key is given every kind of value its file format can express
+            variants = [('zzz', 'basic'), (['a', 'b'], 'array'), ('3', 'bare'), ('true', 'bare'), ('{ level = 3, name = "x" }', 'bare'), ('[[1, 2], [3]]', 'bare')] if fmt == 'toml' \
+                else [('zzz', 'raw'), (['a', 'b'], 'listliteral'), ('3', 'raw')]       # (an empty value means "not set" in an INI file: the key is then not read at all)
+            for val, sp in variants:
+                text = _file_text(fmt, section, [('project-version', '9.9', 'basic' if fmt == 'toml' else 'raw'), (k, val, sp)])
+                _write(d, fname, text)
+                got = _outcome([], d)
+                res.c('unknown_key_cases')
+                res.c('evaluations')
+                if got[0] != 'ok':
+                    res.v('C20:unknown-key-aborts', f'{fname}: unknown key {key!r} = {val!r} gives {got[0]} {got[1]}', cfgkey=key, file=fname, file_text=text)
+                    continue
+                why = _same(ref, got)
+                if why:
+                    res.v('C20:unknown-key-applied', f'{fname}: unknown key {key!r} = {val!r} changed the configuration: {why}', cfgkey=key, file=fname, file_text=text)
+                if not any('No such config option' in w for w in got[2]):
+                    res.v('C20:unknown-key-not-warned', f'{fname}: unknown key {key!r} = {val!r} produced no "No such config option" warning (warnings: {got[2]})', cfgkey=key, file=fname, file_text=text)
     res.sample({'unknown_key': key})
 
 
